@@ -32,7 +32,12 @@ open CwPlus CwPlus.Ics20
 /-- **C12, outstanding_identity**: on every history, for every channel and denomination,
 `outstanding = sent − failedOrTimedOut − redeemed` (stated additively).  `sent` starts as whatever is
 outstanding in the start state and is re-baselined by a migration (which books in-flight tokens of
-the old rules as sent). -/
+the old rules as sent).  The re-baselining makes the identity trivially preserved *at* the migration
+step; what the migration really does is `migrate_books_inflight` (outstanding := real holdings,
+total_sent grows by the same difference), and `sent_tracks_total_sent` shows that the re-baselined
+`sent` is, up to the start offset, the contract's own `total_sent` counter on every history
+(`outstanding_identity_total_sent`: the identity with `sent` read off `total_sent`).  For start states
+with packets already in flight see `outstanding_identity_inflight`. -/
 theorem outstanding_identity (w : World) (ops : List (Block × Op)) (c : String) (d : Denom) :
     let wg := runG (w, Ghost.init w) ops
     outstanding wg.1.st c d + wg.2.failed (c, d) + wg.2.redeemed (c, d) = wg.2.sent (c, d) := by
